@@ -79,6 +79,7 @@ def erf(x: float | np.ndarray) -> float | np.ndarray:
             Vol. 55. US Government printing office, 1970.
     """
     sign = np.sign(x)
+    x = np.abs(x)  # the approximation holds for positive x, erf is odd
     a = np.array([0.278393, 0.230389, 0.000972, 0.078108])
     p = np.array([[1, 2, 3, 4]]).T
     sum = np.sum(a * np.power(x, p).T, axis=1)
